@@ -166,15 +166,15 @@ PumpFinish ==
 
 (* ---------------- caller (doRequestResponse) ---------------- *)
 \* data messages the writer has accepted so far (on the wire or still in its hands): they precede any later request
-Accepted == DataCount(wireSeen) + DataCount(toAgent.q) + DataCount(writer.buf)
+AcceptedData == DataCount(wireSeen) + DataCount(toAgent.q) + DataCount(writer.buf)
 CallStart(c) ==
     /\ caller.pc = "idle"
-    /\ caller' = [caller EXCEPT !.pc = "enter", !.lo = Accepted]
+    /\ caller' = [caller EXCEPT !.pc = "enter", !.lo = AcceptedData]
     /\ UNCHANGED <<pump, results, stopper, stopRet, outs, outClosed, owner, mu, want, flags, err, writer, toAgent,
                    agent, fromAgent, reader, kaBuf, respC, ticker, watcher, crashed, diag, wireSeen>>
 Rid == caller.i + 1
 Finish(c, e, v) ==
-    /\ results' = Append(results, [kind |-> c.kind, rid |-> Rid, err |-> e, val |-> v, data |-> c.data, lo |-> caller.lo, hi |-> Accepted])
+    /\ results' = Append(results, [kind |-> c.kind, rid |-> Rid, err |-> e, val |-> v, data |-> c.data, lo |-> caller.lo, hi |-> AcceptedData])
     /\ caller' = [caller EXCEPT !.pc = "idle", !.i = caller.i + 1]
 \* the locked prologue: stopped -> error, else requestsGroup.Add(1)
 CallEnter(c) ==
